@@ -304,6 +304,8 @@ def run(args):
             pass
         except Exception as ex:
             R.spec_fail(dict(kind="integrate-fails-after-history", err=type(ex).__name__), f"integrate fails after an accepted history: {type(ex).__name__}: {str(ex)[:150]}", desc, repr(ex)[:300])
+        if h % 32 == 31:
+            jax.clear_caches()          # thousands of differently shaped modules: keep the compilation cache bounded
         if len(R.samples) < 3:
             R.samples.append(dict(kind=kind, n=n, ops=ops[:6]))
     for (kind, n, ops), obs, out in zip(metas, observed, drv.batch(lines)):
